@@ -315,6 +315,8 @@ impl<L> ClientBuilder<L> {
 		let (client_dropped_tx, client_dropped_rx) = oneshot::channel();
 		let (send_receive_task_sync_tx, send_receive_task_sync_rx) = mpsc::channel(1);
 		let manager = ThreadSafeRequestManager::new();
+		#[cfg(feature = "verif-hooks")]
+		let verif_manager = manager.clone();
 
 		let (ping_interval, inactivity_stream, inactivity_check) = match self.ping_config {
 			None => (IntervalStream::pending(), IntervalStream::pending(), InactivityCheck::Disabled),
@@ -367,6 +369,8 @@ impl<L> ClientBuilder<L> {
 			error: ErrorFromBack::new(to_back, disconnect_reason),
 			id_manager: RequestIdManager::new(self.id_kind),
 			on_exit: Some(client_dropped_tx),
+			#[cfg(feature = "verif-hooks")]
+			verif_manager,
 		}
 	}
 
@@ -389,6 +393,8 @@ impl<L> ClientBuilder<L> {
 		let (client_dropped_tx, client_dropped_rx) = oneshot::channel();
 		let (send_receive_task_sync_tx, send_receive_task_sync_rx) = mpsc::channel(1);
 		let manager = ThreadSafeRequestManager::new();
+		#[cfg(feature = "verif-hooks")]
+		let verif_manager = manager.clone();
 
 		let ping_interval = PendingIntervalStream::pending();
 		let inactivity_stream = PendingIntervalStream::pending();
@@ -426,6 +432,8 @@ impl<L> ClientBuilder<L> {
 			error: ErrorFromBack::new(to_back, disconnect_reason),
 			id_manager: RequestIdManager::new(self.id_kind),
 			on_exit: Some(client_dropped_tx),
+			#[cfg(feature = "verif-hooks")]
+			verif_manager,
 		}
 	}
 }
@@ -443,6 +451,18 @@ pub struct Client<L = RpcLogger<RpcService>> {
 	/// When the client is dropped a message is sent to the background thread.
 	on_exit: Option<oneshot::Sender<()>>,
 	service: L,
+	/// Handle to the shared request manager, kept only for `verif_table_sizes`.
+	#[cfg(feature = "verif-hooks")]
+	verif_manager: ThreadSafeRequestManager,
+}
+
+#[cfg(feature = "verif-hooks")]
+impl<L> Client<L> {
+	/// Sizes of the request manager's four tables:
+	/// `[requests, subscriptions, batches, notification handlers]`.
+	pub fn verif_table_sizes(&self) -> [usize; 4] {
+		self.verif_manager.lock().verif_table_sizes()
+	}
 }
 
 impl Client<Identity> {
